@@ -367,7 +367,7 @@ func Replay(env *Env, fam string, newDriver func() Driver, bs []*Behaviour, par 
 				h := behaviourHash(b)
 				nt := true
 				if cl != nil {
-					nt = cl.NonTrivial(env, b)
+					nt = safeNonTrivial(cl, env, b)
 				}
 				mu.Lock()
 				sum.Behaviours++
@@ -388,7 +388,7 @@ func Replay(env *Env, fam string, newDriver func() Driver, bs []*Behaviour, par 
 						sum.Errors = append(sum.Errors, fmt.Sprintf("%s step %d: %s", b.ID, mm.Step, mm.Error))
 					} else {
 						if sg != nil {
-							mm.Signature = sg.Signature(b, mm.Step, mm.Field, mm.Expected, mm.Observed)
+							mm.Signature = safeSignature(sg, b, mm)
 						}
 						if mm.Signature == "" {
 							mm.Signature = defaultSignature(b, mm)
@@ -423,6 +423,29 @@ func Replay(env *Env, fam string, newDriver func() Driver, bs []*Behaviour, par 
 	wg.Wait()
 	sort.Slice(sum.Mismatches, func(i, j int) bool { return sum.Mismatches[i].Signature < sum.Mismatches[j].Signature })
 	return sum
+}
+
+// a driver's classifier / signer runs on an object the failing behaviour may have corrupted:
+// a panic there must not kill the replay (the disagreement is still reported with the default signature)
+func safeNonTrivial(cl Classifier, env *Env, b *Behaviour) (nt bool) {
+	defer func() {
+		if r := recover(); r != nil {
+			nt = true
+		}
+	}()
+	return cl.NonTrivial(env, b)
+}
+
+func safeSignature(sg Signer, b *Behaviour, mm *Mismatch) (sig string) {
+	defer func() {
+		if r := recover(); r != nil {
+			sig = ""
+		}
+	}()
+	if mm.Step < 0 || mm.Step >= len(b.Steps) {
+		return ""
+	}
+	return sg.Signature(b, mm.Step, mm.Field, mm.Expected, mm.Observed)
 }
 
 func sigHash(s string) string {
